@@ -27,7 +27,9 @@ def main(argv=None):
         sys.stderr.write(pr.stderr)
         rc = pr.returncode
         if rc == 1 and "MISMATCH" not in pr.stdout + pr.stderr:
-            rc = EXIT_INCONCLUSIVE          # the replay script crashed: nothing was reproduced
+            frames = [ln for ln in pr.stderr.splitlines() if ln.lstrip().startswith('File "')]
+            if not (frames and os.path.join(REPO, "sigpyproc") + os.sep in frames[-1]):
+                rc = EXIT_INCONCLUSIVE      # the replay script itself crashed: nothing was reproduced
         if rc == 1:
             print(f"VIOLATION property={pid} replay={a.replay}")
         return rc
